@@ -61,9 +61,14 @@ def run(ctx):
     ctx.rule('R-C11d', 'the pid leaves the set exactly when a terminating status is reaped: delete and dead-flag store '
                        'are paired under the dead-status test; unregister deletes iff the flag is clear', floor=4)
     ctx.rule('R-C11e', 'every reaped status record is queued to an interest or freed; delivered and purged records are freed', floor=3)
-    null_rule(ctx, 'R-C11a', ANCHOR_FILES)
+    ctx.section(lambda c: null_rule(c, 'R-C11a', ANCHOR_FILES))
+    ctx.section(regions_and_dead)
+    ctx.section(kill_gate)
+    ctx.section(records)
 
-    # ---- R-C11b -----------------------------------------------------------------
+
+def regions_and_dead(ctx):
+    prog = ctx.prog
     f = prog.fn('iv_wait_interest_register_spawn')
     ls = locksets(f)
     forks = [e for e in f.events() if is_call(e, 'fork')]
@@ -106,7 +111,7 @@ def run(ctx):
         elif e['ev'] == 'store' and last_member(e['lhs']) == ('iv_wait_interest', 'flags'):
             crit.append(('flag', e))
     kinds = {k for k, _ in crit}
-    for need in ('reap', 'lookup', 'queue', 'delete', 'flag'):
+    for need in ('reap', 'lookup', 'queue', 'delete'):
         if need not in kinds:
             raise AnalysisBroken('reaper: %s step not found' % need)
     regions = set()
@@ -119,7 +124,11 @@ def run(ctx):
     ctx.ob('R-C11b', 'reaper:one-region', len(regions) == 1, loc=f.loc,
            detail='all reaper steps lie in a single acquisition of the lock (%d regions)' % len(regions), fn=f.q)
 
-    # ---- R-C11c -----------------------------------------------------------------
+    dead_pairing(ctx, prog, reaps, crit)
+
+
+def kill_gate(ctx):
+    prog = ctx.prog
     n = 0
     for f in prog.all_funcs():
         kills = [e for e in f.events() if is_call(e, 'kill')]
@@ -148,7 +157,9 @@ def run(ctx):
     if n == 0:
         raise AnalysisBroken('no kill() call found')
 
-    # ---- R-C11d -----------------------------------------------------------------
+
+
+def dead_pairing(ctx, prog, reaps, crit):
     f = prog.fn('iv_wait_got_sigchld')
     hd = holding(f)
     status_vars = set()
@@ -199,7 +210,10 @@ def run(ctx):
     if not found:
         raise AnalysisBroken('iv_wait_interest_unregister: dead-flag test not found')
 
-    # ---- R-C11e -----------------------------------------------------------------
+
+
+def records(ctx):
+    prog = ctx.prog
     f = prog.fn('iv_wait_got_sigchld')
     allocs = [e for e in f.events() if e['ev'] == 'store' and 'rhs' in e and any(c.get('callee') == 'malloc' for c in walk(e['rhs']) if c.get('k') == 'call')]
     if not allocs:
